@@ -249,6 +249,22 @@ def run(ctx):
                        "verdict": {"verdict": v, "pos": pos, "clause": clause}, "tlc_cfg": "FormulaTrace.cfg"})
     if traces:
         ctx.sample({"trace": traces[0]}, cap=8)
+    # binding self-test: a recorded rendering with one token removed must be rejected (clause render)
+    import copy
+    bad = []
+    for tr, (v, _, _) in zip(traces, verdicts):
+        if v == "accept" and tr[-1]["shown"] and len(tr[-1]["shown"][0]) >= 2:
+            c = copy.deepcopy(tr)
+            del c[-1]["shown"][len(bad) % 3][-1]
+            bad.append(c)
+        if len(bad) >= 45:
+            break
+    if not bad:
+        raise core.MachineryFailure("binding self-test: no accepted trace to corrupt")
+    for v, pos, clause in ctx.validate_traces("FormulaTrace", "FormulaTrace.cfg", bad, count=False):
+        if v != "reject" or clause != "render":
+            raise core.MachineryFailure("binding self-test: corrupted rendering gave %s/%s" % (v, clause))
+    ctx.counters["selftest_corrupted_traces_rejected"] += len(bad)
     _suite_stage(ctx)
 
 
